@@ -1,0 +1,20 @@
+// Copyright 2019 The Wuffs Authors.
+//
+// SPDX-License-Identifier: Apache-2.0 OR MIT
+
+//go:build verif
+// +build verif
+
+package rac
+
+// VerifSchedHook, if non-nil, is called at the numbered scheduling points of
+// the concurrent reader (between its channel operations). It is only present
+// in builds with the "verif" tag; a monitor uses it to perturb and record
+// goroutine interleavings. It must be set before any Reader is used.
+var VerifSchedHook func(site int)
+
+func verifSched(site int) {
+	if h := VerifSchedHook; h != nil {
+		h(site)
+	}
+}
